@@ -11,7 +11,7 @@ from pathlib import Path
 from hypothesis import strategies as st
 
 from .. import drivers, oracles
-from ..runner import EnumArm, HypArm, Violation
+from ..runner import EnumArm, FuncArm, HypArm, Violation
 
 ID = "C12"
 LEVEL = "exploration"
@@ -25,7 +25,9 @@ RULE = (
     "literal) under black default, black options, black missing, format-command; the argument of the "
     "rewritten file is evaluated and must equal the string exactly (type included). "
     "non-trivial = the string contains a quote, backslash, CR/LF, a leading/trailing blank, a "
-    "non-printable or non-BMP character, or is empty; distinct = distinct case JSON."
+    "non-printable or non-BMP character, or is empty; distinct = distinct case JSON. atheris: coverage-guided "
+    "fuzzing (libFuzzer) of the same function-level round trip, 4 (quick) / 16 (thorough) processes with derived "
+    "-seed values, empty and small seeded corpora."
 )
 ASSUMPTIONS = [
     "python's ast.literal_eval / eval is the trusted reading of a literal",
@@ -329,8 +331,62 @@ def _same(a, b):
     return a == b
 
 
+def run_atheris(tier, seed, known_sigs, deadline):
+    """coverage-guided fuzzing (atheris / libFuzzer) of the literal path with the round-trip oracle inside the
+    target; several processes with derived -seed values, empty and small seeded corpora"""
+    import json
+    import os
+    import shutil
+    import subprocess
+    from concurrent.futures import ThreadPoolExecutor
+
+    from ..runner import Stats, derive_seed
+
+    stats = Stats()
+    try:
+        import atheris  # noqa: F401
+    except Exception:
+        stats.classes["atheris-unavailable"] += 1
+        return stats.to_dict()
+    scale = float(os.environ.get("VERIF_BUDGET_SCALE", "1") or 1)
+    nproc, runs = (4, int(1500 * scale)) if tier == "quick" else (16, int(40000 * scale))
+    work = drivers.fresh_dir("c12fuzz")
+    seeds = [bytes([1]) + b"' a '", bytes([1]) + b'"""' + b"\n'''", bytes([2]) + "é\n".encode(), bytes([0, 0, 255])]
+
+    def one(i):
+        corpus = work / f"corpus{i}"
+        corpus.mkdir()
+        if i % 2:  # every second process starts from a few small valid inputs instead of an empty corpus
+            for k, b in enumerate(seeds):
+                (corpus / f"seed{k}").write_bytes(b)
+        out = work / f"out{i}.json"
+        p = subprocess.run([sys.executable, "-m", "vf.cells.c12_fuzz", str(out), str(corpus), f"-runs={runs}",
+                            f"-seed={derive_seed(seed, 'c12fuzz', i) % 2**31 or 1}", "-max_len=48"],
+                           capture_output=True, text=True, cwd=os.environ.get("VERIF_HOME", "."))
+        return i, p, out
+
+    with ThreadPoolExecutor(nproc) as ex:
+        results = list(ex.map(one, range(nproc)))
+    for i, p, out in results:
+        if out.exists():
+            rec = json.load(open(out))
+            stats.violations.append({"kind": "fuzz-" + rec["kind"], "message": rec["message"], "case": rec["case"],
+                                     "detail": None})
+            stats.evaluations += rec["count"]["n"]
+        elif p.returncode != 0:
+            stats.error = f"atheris process {i} failed rc={p.returncode}\n{p.stderr[-1500:]}"
+        else:
+            stats.evaluations += runs
+            stats.classes["fuzz-process-finished"] += 1
+    shutil.rmtree(work, ignore_errors=True)
+    stats.extra["fuzz_processes"] = nproc
+    stats.extra["fuzz_runs_per_process"] = runs
+    return stats.to_dict()
+
+
 ARMS = [
     EnumArm("l1_enum", _enum, check_enum, signature=sig_l1),
     HypArm("l1_hyp", _strat_l1, check_l1, budget={"quick": 4000, "thorough": 200000}),
     HypArm("e2e", _strat_e2e, check_e2e, budget={"quick": 1600, "thorough": 60000}),
+    FuncArm("atheris", run_atheris, check=check_l1),
 ]
